@@ -9,16 +9,18 @@ BASELINE_OFF = (
     "--timeout=900 --continue-on-collection-errors --junitxml=/tmp/vc2_baseline_off.junit.xml"
 )
 
-# pid -> (engine/spec modules, technique, level text, level note, design ref)
-CHECKS = {
-    "C27": (
-        "FixedDict.tla",
-        "TLC exhaustive exploration of FixedDict.tla; every (state, operation) transition replayed on every fixeddict type",
-        "TLC checks OnlyDeclared/SameType/RejectIffUndeclared/CopyPickleIdentity on the explicit spec (all ordered argument lists of <=2 keys, 9 operations); the dump yields one shortest history per abstract transition and each is executed on all 37 fixeddict types of the library with the key set, type and exception class compared after every step (thorough adds 4000 random walks of depth 12). Exhaustive at the level of abstract transitions, which is the right level for a 9-method dict subclass.",
-        "Trusts TLC, the TLA+ value parser and the concretisation (k1/k2 -> first/last declared entry). Hidden implementation state outside (key set, values, type) is not modelled.",
-        "5/C27",
-    ),
-}
+def load_entries():
+    d = os.path.join(os.path.dirname(__file__), "manifest_entries")
+    out = {}
+    for fn in sorted(os.listdir(d)):
+        if fn.endswith(".json"):
+            with open(os.path.join(d, fn)) as f:
+                e = json.load(f)
+            out[fn[:-5]] = (e["engine"], e["technique"], e["level_text"], e["level_note"], e["design_ref"])
+    return out
+
+
+CHECKS = load_entries()
 
 NOT_APPLICABLE = []
 
